@@ -249,7 +249,29 @@ def r4(ctx):
     ctx.floor("C17.R4", 3)
 
 
+def r3(ctx):
+    """a rejected registration leaves the lists of other documents alone: the shared transaction survives a failing
+    transaction body (shared with C06.R4)"""
+    from . import C06
+    sub = type(ctx)(ctx.prop, ctx.tier, ctx.facts, ctx.cfg)
+    C06.r4(sub)
+    n = 0
+    for o in sub.obligations:
+        if "transaction-body-fails" not in o["key"]:
+            continue
+        o = dict(o)
+        o["key"] = o["key"].replace("C06.R4", "C17.R3")
+        o["rule"] = "C17.R3"
+        ctx.obligations.append(o)
+        n += 1
+        if o["status"] != "holds":
+            ctx.violations.append(o)
+    ctx.analysed_bodies |= sub.analysed_bodies
+    ctx.floor("C17.R3", 2)
+
+
 def run(ctx):
     ctx.run_rule("C17.R1", r1)
     ctx.run_rule("C17.R2", r2)
+    ctx.run_rule("C17.R3", r3)
     ctx.run_rule("C17.R4", r4)
